@@ -214,7 +214,7 @@ fn assume_ttl_room() {
 
 // ------------------------------------------------------------------------------------------ claim topics
 #[kani::proof]
-#[kani::unwind(14)]
+#[kani::unwind(13)]
 pub fn add_claim_topic_step() {
     setup_world();
     let e = Env::default();
@@ -239,7 +239,7 @@ pub fn add_claim_topic_step() {
 }
 
 #[kani::proof]
-#[kani::unwind(14)]
+#[kani::unwind(13)]
 pub fn remove_claim_topic_step() {
     setup_world();
     let e = Env::default();
@@ -288,7 +288,7 @@ macro_rules! topics_arg_props {
 }
 
 #[kani::proof]
-#[kani::unwind(14)]
+#[kani::unwind(13)]
 pub fn add_trusted_issuer_step() {
     setup_world();
     let e = Env::default();
@@ -336,7 +336,7 @@ pub fn add_trusted_issuer_step() {
 }
 
 #[kani::proof]
-#[kani::unwind(14)]
+#[kani::unwind(13)]
 pub fn remove_trusted_issuer_step() {
     setup_world();
     let e = Env::default();
@@ -386,7 +386,7 @@ pub fn remove_trusted_issuer_step() {
 /// converse: a listed issuer can always be removed from a state satisfying J (each of its topics has its
 /// ClaimTopicIssuers entry, so the reverse-mapping loop never meets a missing entry)
 #[kani::proof]
-#[kani::unwind(14)]
+#[kani::unwind(13)]
 pub fn remove_trusted_issuer_accepts() {
     setup_world();
     let e = Env::default();
@@ -403,7 +403,7 @@ pub fn remove_trusted_issuer_accepts() {
 }
 
 #[kani::proof]
-#[kani::unwind(14)]
+#[kani::unwind(13)]
 pub fn update_issuer_claim_topics_step() {
     setup_world();
     let e = Env::default();
@@ -458,7 +458,7 @@ pub fn update_issuer_claim_topics_step() {
 
 // ------------------------------------------------------------------------------------------ getters
 #[kani::proof]
-#[kani::unwind(14)]
+#[kani::unwind(13)]
 pub fn getters_agree() {
     setup_world();
     let e = Env::default();
@@ -473,6 +473,7 @@ pub fn getters_agree() {
     prop!(List::of_u32_vec(&get_claim_topics(&e)).same(&pre.ct), "C20.cti.getters.claim_topics_is_the_topic_list");
     prop!(List::of_addr_vec(&get_trusted_issuers(&e)).same(&pre.ti), "C20.cti.getters.trusted_issuers_is_the_issuer_list");
     prop!(is_trusted_issuer(&e, &a) == pre.ti.has(a.id), "C20.cti.getters.is_trusted_issuer_is_membership");
+    witness!(!before[S_CT].present && !before[S_TI].present, "getters.initial_empty_state");
     let which: u8 = kani::any();
     if which == 0 {
         let r = has_claim_topic(&e, &a, tj);
@@ -502,13 +503,12 @@ pub fn getters_agree() {
         witness!(v.len() == 0, "getters.issuer_without_topics");
     }
     prop!(unchanged(&before, 0, DECLARED, DECLARED), "C20.cti.getters.read_only");
-    witness!(!before[S_CT].present && !before[S_TI].present, "getters.initial_empty_state");
     end_checks(DECLARED);
 }
 
 /// the combined map: one entry per registered topic, holding that topic's issuers; never refuses under J
 #[kani::proof]
-#[kani::unwind(14)]
+#[kani::unwind(13)]
 pub fn map_getter_agrees() {
     setup_world();
     let e = Env::default();
